@@ -3,6 +3,7 @@
 #include "vh.h"
 #include "units/u_iauth.c"
 #include "spec/iauth_model.h"
+#include "spec/set_model.h"
 
 /* ------------------------------------------------------------------ symbolic inputs */
 struct iauth_request in_req;          /* every scalar / text field arbitrary */
@@ -268,5 +269,106 @@ void h_parse_hurry_up(void)
     handler_pre();
     parse_hurry_up(req);
     handler_post((1u << IAUTH_GOT_HURRY_UP) | iauth_flags.bits[0], IAUTH_GOT_HURRY_UP);
+    V_CANARY();
+}
+
+/* ================================================ request table bookkeeping (C10, C01) ====
+ * Real parse_registered / parse_disconnect / parse_new_client over the REAL set.c with the
+ * real disposal callback iauth_req_cleanup; libevent timers by contract (S3). */
+struct iauth_request in_other;
+int in_from_ircd;
+int in_id;
+long in_interval;
+int in_other_timer;
+static struct iauth_request *other;
+
+static struct iauth_request *mk_other(void)
+{
+    struct set_node *node = malloc(sizeof(struct set_node) + sizeof(struct iauth_request));
+    struct iauth_request *r;
+    V_ASSUME(node != NULL);
+    r = set_node_data(node);
+    V_IN(in_other); V_IN(in_other_timer);
+    *r = in_other;
+    r->timeout = in_other_timer ? malloc(1) : NULL;
+    r->data.compare = set_compare_voidp; r->data.cleanup = NULL; r->data.root = NULL; r->data.count = 0;
+    return r;
+}
+
+static void mk_table(int with_req)
+{
+    iauth_reqs = set_alloc(set_compare_int, iauth_req_cleanup);
+    other = mk_other();
+    set_insert(iauth_reqs, set_node(other));
+    if (with_req) {
+        V_ASSUME(req->client != other->client);
+        set_insert(iauth_reqs, set_node(req));
+    }
+}
+
+void h_parse_registered(void)
+{
+    unsigned long frees0;
+    int id;
+    req = mk_request();
+    install_ghost_module();
+    mk_table(1);
+    V_IN(in_from_ircd);
+    frees0 = stats.n_req_frees;
+    id = req->client;
+#ifdef DISCONNECT
+    parse_disconnect(req);
+    V_ASSERT(G.cb_disconnect == 1, "C10: the decision modules see the disconnect once");
+#else
+    parse_registered(req, in_from_ircd);
+    V_ASSERT(G.registered_cb == 1, "C10: the decision modules see the registration / decision once");
+#endif
+    V_ASSERT(set_size(iauth_reqs) == 1, "C10: a withdrawn, registered or decided client no longer counts as in use");
+    V_ASSERT(set_find(iauth_reqs, &id) == NULL, "C01: its id is unknown afterwards - later lines for it are dropped, no second verdict");
+    V_ASSERT(set_find(iauth_reqs, &other->client) == other, "C07: other clients' requests are untouched");
+    V_ASSERT(G.timer_frees == (in_have_timer ? 1u : 0u), "C10: the request's timer is released with it, so it can never fire for a finished request");
+    V_ASSERT(stats.n_req_frees == frees0 + 1, "C10: the free counter advances by one");
+    V_ASSERT(G.msgs == 0 && G.msgs_other == 0, "C01: retiring a request emits nothing");
+    V_CANARY();
+}
+
+void h_parse_new_client(void)
+{
+    char a1[] = "10.0.0.1", a2[] = "1234", a3[] = "10.0.0.2", a4[] = "6667", a0[] = "C";
+    char *argv[6];
+    struct iauth_request *nr;
+    struct conf_node_string tmo;
+    unsigned int serial0, size0;
+    int dup;
+    install_ghost_module();
+    mk_table(0);
+    V_IN(in_id); V_IN(in_interval); V_IN(in_argc);
+    V_ASSUME(in_argc >= 1 && in_argc <= 5);
+    ctype_init();
+    memset(&tmo, 0, sizeof(tmo));
+    tmo.parsed.p_interval = (unsigned int)in_interval;
+    iauth_conf_timeout = &tmo;
+    argv[0] = a0; argv[1] = a1; argv[2] = a2; argv[3] = a3; argv[4] = a4; argv[5] = NULL;
+    serial0 = iauth_serial; size0 = set_size(iauth_reqs);
+    dup = (in_id == other->client);
+    G.req = NULL;
+    parse_new_client(in_id, in_argc, argv);
+    if (in_argc < 5) {
+        V_ASSERT(set_size(iauth_reqs) == size0 && iauth_serial == serial0 && G.cb_new_client == 0, "C08: a short C line changes nothing");
+    } else {
+        nr = set_find(iauth_reqs, &in_id);
+        V_ASSERT(nr != NULL && nr->client == in_id, "C10: the announced client has a request");
+        V_ASSERT(set_size(iauth_reqs) == size0 + (dup ? 0 : 1), "C10: in-use count grows by one, or stays when a live id is re-announced (replacement)");
+        V_ASSERT(nr->serial == serial0 + 1 && iauth_serial == serial0 + 1, "C04: every connection instance gets a fresh serial");
+        V_ASSERT(!RESPONDED(nr) && nr->holds == 0 && nr->soft_holds == 0 && nr->flags.bits[0] == 0, "C01/C02: a new request starts undecided, without holds or data");
+        V_ASSERT(nr->remote_port == 1234 && nr->local_port == 6667, "C09: the announced ports are recorded");
+        V_ASSERT(G.cb_new_client == 1, "C10: the decision modules see the new client once");
+        V_ASSERT((nr->timeout != NULL) == ((unsigned int)in_interval != 0), "C02: a timer exists exactly when a timeout is configured");
+        if (dup)
+            V_ASSERT(G.timer_frees == (in_other_timer ? 1u : 0u), "C10: the replaced request's timer is released (it cannot fire for the newcomer)");
+        else
+            V_ASSERT(G.timer_frees == 0, "C07: announcing a client releases nothing of another client");
+        V_ASSERT(G.msgs == 0 && G.msgs_other == 0 && G.broadcasts == 0, "C01: announcing a client emits nothing by itself");
+    }
     V_CANARY();
 }
